@@ -17,6 +17,52 @@ PROPS = {
                         "nil and empty byte slices are identified"],
         "rule": "seeded generator: raft.Logs over varint boundaries 2^(7k)+-1, MaxUint64, nil/empty/64KiB-crossing data, 7 time shapes x 6 zone shapes; malformed stream of 7 mutation kinds; distinct = distinct input lines",
     },
+    "C19": {
+        "streams": [S("mig", 700, 12000, vm=(40, 300), vm_maxlen=2500)],
+        "trusted": [GO, "raft.InmemStore and raft-boltdb/v2 as shipped in the module cache (used as source/destination stores)"],
+        "assumptions": ["LogStores are abstracted to the contiguous-log spec {first; entries} (what C05 states for the WAL); source indexes start at 1 and the last index is below MaxUint64 (uint64 loop variable)",
+                        "AppendedAt is projected to the instant (seconds, nanoseconds); nil and empty byte slices are identified",
+                        "batchSize is a mathematical integer in the model (Go int does not overflow below 2^63 bytes of log data)",
+                        "StableStore: byte and uint64 key spaces are disjoint; a key never set and an empty value are identified in the destination; what a source does for a key never set is a parameter of the model (InmemStore: Get fails; raft-boltdb: Get and GetUint64 fail; WAL: neither fails)"],
+        "rule": "seeded generator: 9 store pairings x source length 0..80 (thorough ..400) x first index (1, small, 2^(7k), last = MaxUint64-1) x batchBytes (0, 1, negative, MinInt64, MaxInt64, around 1..4 entries, around the whole log) x cancellation point x injected GetLog/StoreLogs failure x nil/buffered/unbuffered progress channel; CopyStable over 9 pairings x missing keys x extra keys x cancellation; distinct = distinct input lines",
+    },
+    "C07": {
+        "streams": [S("fstrace", 40, 400, vm=(8, 40), vm_maxlen=40000, timeout=3000)],
+        "trusted": ["strace 6.1 (-f -y): complete and correctly ordered log of the traced syscalls of the child process; ordering across threads is the order in which the tracer saw the syscall stops (causally ordered calls are never swapped)",
+                    "the kernel/file system makes data durable on fsync/fdatasync of the file and directory entries (creation, rename, unlink) durable on fsync of the directory, fallocate zero-fills, O_EXCL is exclusive (README assumptions; this is the disk semantics `dstep` of Fs/DisciplineFacts.v, not something the check can observe)",
+                    BBOLT, GO],
+        "assumptions": ["workloads start in a fresh directory (every file is created inside the trace); the checker rejects traces that touch unknown segment files",
+                        "a write is abstracted to its (offset, length) range; contents are not part of the trace",
+                        "C07_model_traces_ok is conditional on the caller of the fs layer syncing every written file before it acknowledges (wf_ops) -- the segment writer's sync path; the fst lines check that on the real traces"],
+        "rule": "6 fixed scenarios (create+first commit, rotation, head/tail truncation deleting files, close/reopen/append, reset of the empty first segment, oversized batch/truncate to empty) + seeded random WAL workloads (segment sizes 512..8192, appends, waits, truncations, close/reopen) run on the production fs.FS + BoltMetaDB under strace; fso: seeded fs-layer call sequences (create/openwriter/write/sync/close/delete/meta init/commit) compared event by event with the model's fs_trace; distinct = distinct input lines",
+    },
+    "C20": {
+        "streams": [S("seqapi", 150, 3000, vm=(5, 100), vm_maxlen=5000)],
+        "trusted": [GO, "go/ast translator harness/cmd/wh/facts.go (call-site scan) and the compiled MetricDefinitions tables"],
+        "assumptions": ["segment_rotations has no specification-level total (it is compared with the model only)"],
+        "rule": "seeded op sequences (stores incl. invalid shapes, deletes at all positions, reads, stable ops, reopen) over 7 segment sizes, on crashfs and on the real fs+BoltDB; metrics summary compared with the model after every M op and with independently computed true totals; distinct = distinct input lines",
+    },
+    "C05": {
+        "streams": [S("seqapi", 250, 6000, vm=(6, 120), vm_maxlen=5000)],
+        "selftests": [{"name": "crash_refinement_stmt (crash-free histories included)", "args": [], "n": (1500, 40000)}],
+        "trusted": [GO, BBOLT],
+        "assumptions": ["indexes in [1, 2^64-2], one batch < 1 GiB, segment size < 1 GiB (no 32/64-bit wrap)", "rotation is awaited right after each StoreLogs (W barrier)"],
+        "rule": "seeded op sequences (valid and invalid appends, deletes at every position class, reads around the boundaries, stable ops, reopen) over 7 segment sizes down to one entry per segment, on crashfs and on the real fs + BoltDB; every result, first/last, every entry, metrics, persisted metadata, directory listing and the I/O trace compared with the model; independent reference-log oracle; distinct = distinct input lines",
+    },
+    "C01": {
+        "streams": [S("crash", 250, 6000, vm=(10, 100), vm_maxlen=8000)],
+        "selftests": [{"name": "crash_refinement_stmt", "args": [], "n": (1500, 40000)}],
+        "trusted": [GO, BBOLT, "segment-level recovery law (a torn batch is recovered as absent, a complete one as present) proved in Seg/RecoverFacts.v under the explicit no-CRC-collision hypothesis"],
+        "assumptions": ["8-byte chunk granularity of torn writes (PSOW, README)", "bbolt commits are atomic and durable"],
+        "rule": "seeded workloads; power loss after a random I/O action (never inside a run of deletions), adversary keeps/drops every non-durable file and every pending batch independently, nested second crash in 50%; then Open, audit, usability probe, clean reopen; oracle = acknowledged entries survive and the recovered log is exactly the acknowledged or the in-flight state; distinct = distinct input lines",
+    },
+    "C10": {
+        "streams": [S("faults", 250, 6000, vm=(10, 100), vm_maxlen=8000)],
+        "selftests": [{"name": "fault_safety_stmt", "args": ["f"], "n": (1500, 40000)}],
+        "trusted": [GO, BBOLT],
+        "assumptions": ["faults are transient single failures of one VFS/MetaStore call with no partial effect (a failed write writes nothing; a failed fsync leaves the data written)", "deletions are exempt from fault injection (Go map order makes their order nondeterministic)", "I/O error + restart + later power loss is outside the model (adopted unsynced data is treated as synced)"],
+        "rule": "seeded workloads with a fault armed before 1/3 of the calls (the k-th action from then fails, k in 0..4), in-process audits, restart, reopen, usability probe; oracle = acknowledged entries readable and unchanged in-process and after reopen; distinct = distinct input lines",
+    },
 }
 
 VFY_TRUSTED = [GO, "github.com/segmentio/fasthash/fnv1a -- modelled (Base/Fnv.v) and differentially tested: every sum in every report is an observable of the vfy stream",
@@ -35,3 +81,7 @@ for _pid in ("C16", "C17", "C18"):
         "streams": [S("vfy", 1500, 20000, vm=(40, 300), vm_maxlen=2500)],
         "trusted": VFY_TRUSTED, "assumptions": VFY_ASSUME, "rule": VFY_RULE,
     }
+for _p in ("C02", "C03", "C04", "C13"):
+    PROPS[_p] = dict(PROPS["C01"])
+PROPS["C08"] = dict(PROPS["C05"])
+PROPS["C08"]["streams"] = [S("seqapi", 200, 5000, vm=(5, 100), vm_maxlen=5000), S("crash", 120, 3000, vm=(5, 50), vm_maxlen=8000)]
